@@ -177,6 +177,8 @@ impl SeqModel {
         match op {
             Op::Send { .. } => self.m.send_would_wait(),
             Op::Recv { .. } => self.m.recv_would_wait(),
+            Op::SendTimeout { us: u32::MAX, .. } | Op::SendOptTimeout { us: u32::MAX, .. } => self.m.send_would_wait(),
+            Op::RecvTimeout { us: u32::MAX, .. } => self.m.recv_would_wait(),
             Op::Iter { n, .. } => {
                 let avail = self.m.queue.len() + self.m.sw.len();
                 self.m.rc != 0 && self.m.sc != 0 && avail < *n as usize
@@ -612,7 +614,7 @@ pub fn gen_seq(rng: &mut Rng, max_len: usize) -> Case {
             0 | 1 if !ls.is_empty() => {
                 let h = *rng.pick(&ls);
                 let id = next_id;
-                let us = *rng.pick(&[0u32, 0, 5]);
+                let us = *rng.pick(&[0u32, 0, 5, u32::MAX]);
                 let o = match rng.below(9) {
                     0 => Op::Send { h, id },
                     1 => Op::SendTimeout { h, id, us },
@@ -627,7 +629,7 @@ pub fn gen_seq(rng: &mut Rng, max_len: usize) -> Case {
             }
             2 | 3 if !lr.is_empty() => {
                 let h = *rng.pick(&lr);
-                let us = *rng.pick(&[0u32, 0, 5]);
+                let us = *rng.pick(&[0u32, 0, 5, u32::MAX]);
                 let o = match rng.below(8) {
                     0 => Op::Recv { h },
                     1 => Op::RecvTimeout { h, us },
@@ -729,6 +731,9 @@ pub fn gen_seq(rng: &mut Rng, max_len: usize) -> Case {
                 Op::Send { h, id } => Op::SendTimeout { h, id, us: 0 },
                 Op::Recv { h } => Op::RecvTimeout { h, us: 0 },
                 Op::Iter { h, .. } => Op::TryRecv { h },
+                Op::SendTimeout { h, id, .. } => Op::SendTimeout { h, id, us: 0 },
+                Op::SendOptTimeout { h, id, .. } => Op::SendOptTimeout { h, id, us: 0 },
+                Op::RecvTimeout { h, .. } => Op::RecvTimeout { h, us: 0 },
                 x => x,
             };
         }
